@@ -25,3 +25,32 @@ func (t *Text) drawSoftwrap(ctx vxfw.DrawContext) (vxfw.Surface, error)
   loop * invariant surf: s.Size.Width <= ctx.Max.Width && s.Size.Height <= ctx.Max.Height
                       && len(s.Buffer) == int(s.Size.Width) * int(s.Size.Height)
 @*/
+
+/*@
+-- ------------------------------------------------------------------ the plain-text soft-wrap scanner (C16, safety and progress)
+-- uniseg, bytes and utf8 are outside the module (ASSUMED): FirstLineSegment splits its input into a non-empty first
+-- segment and the rest and reports a mandatory break at the end of the text; TrimRightFunc returns a prefix of its
+-- argument; DecodeLastRune returns a size within the slice
+extern func github.com/rivo/uniseg.FirstLineSegment(b, state)
+  ensures len(result0) + len(result1) == len(b) && (len(b) > 0 ==> len(result0) > 0) && ((len(b) > 0 && len(result1) == 0) ==> result2)
+  ensures backing(result0) == backing(b) && offset(result0) == offset(b)
+extern func bytes.TrimRightFunc(s, f)
+  ensures len(result) <= len(s) && backing(result) == backing(s) && offset(result) == offset(s)
+extern func unicode/utf8.DecodeLastRune(p)
+  ensures 0 <= result1 && result1 <= len(p) && result1 <= 4
+
+-- Scan: never panics, its loop terminates (every iteration that does not return consumes a non-empty segment), the
+-- measured width of what was put on the line never exceeds the line, and every return outside the long-word case
+-- leaves strictly less text
+func (s *SoftwrapScanner) Scan(ctx vxfw.DrawContext) bool
+  requires chars: ref(ctx.Characters) != 0
+  ensures C16_stop: (old(len(s.rest)) == 0 || s.width == 0) ==> !result
+  ensures C16_go:   (old(len(s.rest)) > 0 && s.width > 0) ==> result
+  exit 3 assert C16_progress3: len(s.rest) < old(len(s.rest)) && w <= s.width
+  exit 4 assert C16_progress4: len(s.rest) < old(len(s.rest)) && w <= s.width
+  exit 5 assert C16_progress5: len(s.rest) < old(len(s.rest)) && w <= s.width
+  loop 1 invariant line: s.width == old(s.width) && s.width > 0 && w <= s.width && 0 < len(s.rest) && len(s.rest) <= old(len(s.rest))
+                      && (w > 0 ==> len(s.rest) < old(len(s.rest)))
+  loop 1 decreases len(s.rest)
+@*/
+
